@@ -1333,7 +1333,8 @@ pub fn divide() -> impl Function {
                 ),
                 (
                     data_type::Float::from_min(0.0),
-                    data_type::Float::from_max(0.0),
+                    // the divisor reaches zero from below: -0.0, so that x / -0.0 is -inf
+                    data_type::Float::from_max(-0.0),
                 ),
                 (
                     data_type::Float::from_max(0.0),
@@ -1341,7 +1342,7 @@ pub fn divide() -> impl Function {
                 ),
                 (
                     data_type::Float::from_max(0.0),
-                    data_type::Float::from_max(0.0),
+                    data_type::Float::from_max(-0.0),
                 ),
             ],
             |x, y| (x / y).clamp(<f64 as Bound>::min(), <f64 as Bound>::max()),
